@@ -2,7 +2,7 @@
 from ..callgraph import explore, storage_effects, message_effects, site_guarded, call_sites, written_value_in
 from ..expr import show, find
 from .common import entry, variant_env, stored, where, arm_handler
-from .hub_common import (release_loops, release_guard_preds, history_readers, history_writers, subtree,
+from .hub_common import (release_loops, release_guard_preds, history_readers, history_writers, subtree, early_exits,
                          PARAMS, STATE, NEWWAIT, HISTORY)
 from .msgs import vec_elems, coin_parts, is_zero_fact
 
@@ -23,6 +23,8 @@ def run(prog, world, sem, rep):
              "State.last_processed_batch + 1 and both continue exactly while entry exists / time <= now - unbonding_period / not released", 8)
     rep.rule("C01.g", "per-token pairing of the withdraw-rate computation: (amount, previous rate, group total, slashed amount) all of the same "
              "token and the result stored into that token's withdraw rate", 2)
+    rep.rule("C01.i", "every claim of the caller is examined: the loop over the caller's wait-list entries in the payable function leaves only when "
+             "the entries are exhausted (or on an error), never early", 1)
     rep.rule("C01.h", "arrived coins: the amount distributed over the released batches is (hub balance passed by the handler) - "
              "State.prev_hub_balance; a negative difference is an error before anything is released", 2)
 
@@ -150,6 +152,10 @@ def run(prog, world, sem, rep):
             seen_tok |= names
     rep.ob("C01.c", "products pair amount and withdraw rate of the same token", okc and seen_tok == set(TOK), "; ".join(det) if det else "bsei x bsei rate + stsei x stsei rate", where(pv.body, add.site[1]))
     rep.ob("C01.c", "wait entry and history entry share the batch key", okc, "; ".join(det) if det else "both derived from one bucket item", where(pv.body))
+    ee = early_exits(sem, pv, add.site[1])
+    rep.ob("C01.i", "payable loop visits every wait-list entry", ee == [],
+           "the loop over the caller's claims can be left early towards a success exit (lines %s): matured claims after that point are neither paid nor removed" % [l for _, _, l in ee]
+           if ee else ("no early exit" if ee == [] else "anchor-lost: accumulation is not inside a loop"), where(pv.body, add.site[1]))
     # C01.b queue-for-removal paired with the accumulation
     pb = push.site[1]
     ab = add.site[1]
